@@ -29,7 +29,7 @@ type c13Byte struct {
 
 func runC13(r *core.Run) {
 	firstCallClause(r, "sequtil.DNA", "sequtil.Ntoi", "sequtil.Iton")
-	defer racePass(r, "race-sequtil", "ReverseComplement(String), DNATo2Bit/From2Bit, Translate(ReadingFrames), CanonicalSubsequences, AminoName on one shared src")
+	racePass(r, "race-sequtil", "ReverseComplement(String), DNATo2Bit/From2Bit, Translate(ReadingFrames), CanonicalSubsequences, AminoName on one shared src")
 
 	L := core.Pick(r, 5, 8)
 	r.Bound("pack", fmt.Sprintf("all strings over aAcCgGtT of length 0..%d x 3 dst variants", L))
